@@ -7,7 +7,8 @@ PROP = {
         "GunYu.Props.C04.parse_total",
         "GunYu.Props.C04.truncation_errors",
         "GunYu.Props.C04.done_ends_with_footer",
-        "GunYu.Props.C04.alteration_detected_partial",
+        "GunYu.Props.C04.alteration_needs_crc_collision",
+        "GunYu.Props.C04.alteration_detected",
         "GunYu.Props.C04.zero_footer_exception",
     ],
     "expected_facts": {},
@@ -21,7 +22,7 @@ PROP = {
             "expiry; one with an EOF opcode + 8 zero bytes inside a value, D19 bait) + 1 'oom bait' (binary key starting 00 00 01 00..). "
             "(1) parser vs Lean frame model: EVERY truncation length and EVERY single-byte XOR (255 masks x every position) of the 4 "
             "files, outcome d<n>/e<n>, 'u' where the Go-side walker says the parse path leaves the modelled grammar (LZF, text floats, "
-            "streams, modules); inputs whose length fields ask for > 256 MiB are parsed in a child process (memory limit, 60 s budget) "
+            "streams, modules); inputs whose length fields ask for > 4 GiB (64-bit length form) are parsed in a child process (memory limit, 60 s budget) "
             "and a dying child is the violation 'oom'/'hang'/'crash'; (2) the whole pipeline on every truncation and 4 XOR masks per "
             "position (thorough: 11 masks + 200 generated files with random alterations), parallel 1-4, pipe sizes 1/2/8/1024, "
             "plain/bidirectional, restore on/off, checkpoint on target / in memory; (3) on 2 files x parallel 1-4 x pipe sizes x "
@@ -35,7 +36,7 @@ PROP = {
             "distinct_nontrivial = distinct (file, position) alteration rows + distinct fan-out scenario points",
     "trusted": [
         "RDB framing (opcodes, length forms, string forms, per-type value layout) as transcribed in Model/RdbFrame.lean and as "
-        "written by the harness's snapshot writer pkg/vfc20; CRC64 as in Model/Rdb/Crc64.lean (table regenerated, = Jones proved in C03)",
+        "written by the harness's snapshot writer pkg/vfc20; CRC64 as in Model/Rdb/Crc64.lean (table regenerated; C03's crc64TabStep_eq_specStep is used by Proofs/Crc64Burst.lean)",
         "goroutine scheduling inside testing/synctest; the target double",
     ],
     "assumptions": [
@@ -47,10 +48,6 @@ PROP = {
         "a snapshot reader that ends after the snapshot's bytes (store.RdbReader and MemoryReader close the pipe after `size` bytes)",
     ],
     "partial": [
-        "alteration_detected_partial: a single-byte alteration of a covered byte is refused UNLESS the CRC64 of the altered bytes "
-        "equals the original CRC64 (a collision between two strings differing in one byte); that CRC-64/Jones detects every "
-        "single-byte change is not proved (alteration_detected_stmt) - the exhaustive sweep (every position x 255 masks of 4 files) "
-        "finds no accepted alteration",
         "memory exhaustion / wall-clock hang on damaged input is outside what a theorem about the model can say (parse_total only "
         "states termination of the model within |input| steps); tied by the sweep with child processes and watchdogs",
         "real goroutine interleavings are explored by synctest schedules and repeated runs, not exhaustively",
@@ -63,8 +60,9 @@ MANIFEST = {
             "distributor finished while workers hold queued entries), the checkpoint is written / nil is returned only if the parser "
             "ended with Done and every entry was applied; (2) in the frame-level model of ParseRdb (input must be exhausted after the "
             "footer) parsing is total within |input| steps, every truncation of an accepted file is an error, Done implies EOF opcode "
-            "+ footer are the last 9 bytes and the footer is zero or the CRC64 of everything before, hence a single-byte alteration "
-            "is refused unless CRC64 collides or the footer becomes all-zero. Tie: exhaustive truncation/XOR sweep of small files "
+            "+ footer are the last 9 bytes and the footer is zero or the CRC64 of everything before; every single-byte alteration "
+            "of a covered byte is refused (CRC-64/Jones separates strings differing in one byte, proved), an altered footer is "
+            "refused unless it becomes all-zero ('checksum disabled'). Tie: exhaustive truncation/XOR sweep of small files "
             "through the real parser (vs model) and the real SendRdb against the target double with fault injection, cancellation at "
             "every request and the hold-cancel-release schedule under synctest; independent Go monitor of the property.",
     "note": "trusted: Lean kernel, RDB framing transcription, target double, synctest; models of the REPAIRED code (D6, D19, D22 fixed)",
